@@ -112,12 +112,41 @@ inline Csr<double> gen_ddom(Tape &t, const Graph &g, bool integer, bool sym, Mat
     return rows_to_csr(rows);
 }
 
+// Symmetric matrix with MIXED-sign off-diagonals and exactly zero row sums (dyadic values: every sum below is exact).
+// Negative couplings are integers 1..4 (grid edges along the axes; most edges of other graphs), positive couplings are
+// 1/4, 1/2 or 3/4 (the diagonal couplings of the nine-point grid; a tape-chosen share of the edges elsewhere).
+// a_ii = -sum_j a_ij wherever that is positive (rows with negative mass: not diagonally dominant, still zero row sum);
+// a tape-chosen share of rows gets an extra integer shift (non-zero row sum), rows without negative mass get sum|a_ij| + 1.
+inline Csr<double> gen_sym_mixed_zero(Tape &t, const Graph &g, MatInfo *info = nullptr) {
+    int n = g.n;
+    Rows rows(n);
+    int pos_share = static_cast<int>(t.u(1, 3)); // positive couplings on non-grid edges: pos_share/6
+    for (size_t e = 0; e < g.edges.size(); ++e) {
+        int i = g.edges[e].first, j = g.edges[e].second;
+        bool diag_coupling = g.family == "grid2x9" && g.axis[e] < 0;
+        bool pos = diag_coupling ? !t.chance(1, 8) : t.chance(pos_share, 6);
+        double w = pos ? 0.25 * static_cast<double>(t.u(1, 3)) : -static_cast<double>(t.u(1, 4));
+        rows[i][j] = w; rows[j][i] = w;
+    }
+    int zr = 0;
+    for (int i = 0; i < n; ++i) {
+        double s = 0, sabs = 0;
+        for (auto &kv : rows[i]) { s += kv.second; sabs += std::abs(kv.second); }
+        bool shift = t.chance(1, 6);
+        if (s < 0) { rows[i][i] = -s + (shift ? static_cast<double>(t.u(1, 2)) : 0.0); if (!shift && sabs > 0) ++zr; }
+        else rows[i][i] = sabs + 1.0;
+    }
+    if (info) info->zero_rowsum_rows = zr;
+    return rows_to_csr(rows);
+}
+
 // One matrix from all families.  fam_mask selects which families may be drawn (bit per family), so that
 // callers that need symmetric values can ask for them constructively.
 //   0 mmat   1 mmat-int   2 convdiff   3 convdiff-int   4 ddom   5 ddom-int   6 ddom-sym   7 ddom-sym-int
+//   8 sym-mixed-zero (not diagonally dominant, may be indefinite: only for callers that ask for it; bits above 8 repeat family 8 to weight it)
 inline Csr<double> gen_matrix(Tape &t, int nmax, MatInfo &info, unsigned fam_mask = 0xff, bool allow_nonsym_pattern = true) {
     std::vector<int> fams;
-    for (int f = 0; f < 8; ++f) if (fam_mask >> f & 1) fams.push_back(f);
+    for (int f = 0; f < 12; ++f) if (fam_mask >> f & 1) fams.push_back(f < 8 ? f : 8);
     int fam = fams[t.pick(fams.size())];
     Graph g = vf::gen_graph(t, nmax);
     info.graph = g.family;
@@ -130,9 +159,10 @@ inline Csr<double> gen_matrix(Tape &t, int nmax, MatInfo &info, unsigned fam_mas
     case 4: { info.family = "ddom"; A = gen_ddom(t, g, false, false, &info); break; }
     case 5: { info.family = "ddom-int"; A = gen_ddom(t, g, true, false, &info); info.integer = true; break; }
     case 6: { info.family = "ddom-sym"; A = gen_ddom(t, g, false, true, &info); break; }
-    default: { info.family = "ddom-sym-int"; A = gen_ddom(t, g, true, true, &info); info.integer = true; break; }
+    case 7: { info.family = "ddom-sym-int"; A = gen_ddom(t, g, true, true, &info); info.integer = true; break; }
+    default: { info.family = "sym-mixed-zero"; A = gen_sym_mixed_zero(t, g, &info); info.integer = true; info.nonsingular = false; break; } // dyadic: exact like the integer families
     }
-    bool symfam = (fam == 0 || fam == 1 || fam == 6 || fam == 7);
+    bool symfam = (fam == 0 || fam == 1 || fam == 6 || fam == 7 || fam == 8);
     if (allow_nonsym_pattern && !symfam && t.chance(1, 3)) A = vf::make_structurally_nonsym(t, A, static_cast<int>(t.u(1, 4)));
     info.value_symmetric = is_value_symmetric(A);
     info.struct_symmetric = is_struct_symmetric(A);
